@@ -35,6 +35,7 @@ var poolInserts = []insertSpec{
 
 func C01(c *Ctx) {
 	r := c.R
+	defer c01IndexArithmetic(c)
 	r.Explain = "Structural necessary conditions of address uniqueness for every pool implementation: lockset (every access to pool state holds the pool's mutex, helpers via their callers), check-then-act atomicity (each owner-map insert is dominated by a lookup miss made under the same lock hold), paired forward/reverse maps, and a take-from-free witness for each bind.  Uniqueness over histories when a witness itself is wrong (2-bit epoch wrap), index/address arithmetic and hash collisions are not decided."
 	r.Rule("C01.lockset", "every read/write of a pool's allocation state happens with that pool's mutex held (write lock for writes); helper functions are covered by every one of their callers", 60)
 	r.Rule("C01.atomicInsert", "each insert into a pool's owner map is dominated by a lookup miss on that map under one uninterrupted lock hold (same subscriber asking again gets the same value, also under concurrent callers)", 8)
